@@ -29,20 +29,28 @@ def model_to_text(model, limit=60):
     return lines
 
 
-def check(world, ob, timeout_ms=5000, depth=2, use_cvc5=True, cvc5_timeout_s=10, seeds=(0,)):
+def check(world, ob, timeout_ms=5000, depth=2, use_cvc5=True, cvc5_timeout_s=10, seeds=(0,), quick_only=False):
     """Returns dict(result=proved|refuted|unknown, backend, time, model)."""
     t0 = time.time()
+    if z3.is_true(ob.goal):
+        return dict(result='proved', backend='z3-simplify', time=0.0, model=None, z3model=None, n_axioms=0)
     base = list(ob.assumptions) + [z3.Not(ob.goal)]
     axioms = world.close(base, depth=depth)
     res = 'unknown'
     backend = None
     model_lines = None
     model = None
-    for seed in seeds:
+    # short restarts first (the sequence solver is unstable: the same query may take 0.1 s or never finish),
+    # then the full budget
+    plan = [(min(timeout_ms, 2000), 0), (min(timeout_ms, 4000), 7), (timeout_ms, 13)]
+    if quick_only:
+        plan = plan[:1]
+    for tmo, seed in plan:
         s = z3.Solver()
-        s.set('timeout', timeout_ms)
+        s.set('timeout', tmo)
         if seed:
             s.set('random_seed', seed)
+            s.set('smt.random_seed', seed)
         for a in base:
             s.add(a)
         for a in axioms:
